@@ -2,6 +2,7 @@
 
 from __future__ import annotations
 
+import copy
 import itertools
 import sys
 from typing import Any
@@ -17,7 +18,8 @@ RULE = (
     "E1 product enumeration on the real SciPy sampler plug-in (created through the plug-in manager) and through "
     "GradientEvaluations.perturbed_variables: method (all six) x R in 1..3 x P in {1,2,4,8} x V in 1..3 x EVERY variable mask x "
     "EVERY assignment of two samplers to the variables (second sampler = a different method) x shared on/off x seeds x 3 "
-    "consecutive calls. Oracle: shape (R,P,V); unhandled columns == 0.0; shared => all realizations identical, else not all "
+    "consecutive calls x (stats methods) with/without an earlier sampler of the same method that was given explicit "
+    "distribution parameters. Oracle: shape (R,P,V); unhandled columns == 0.0; shared => all realizations identical, else not all "
     "identical; bounded methods within [-1,1]; QMC (single sampler): the multiset of generated rows equals the points "
     "2u-1 of a reference engine seeded identically, call after call; LHS: per handled variable the points of a call occupy "
     "distinct strata. A case is trivial when the sampler handles no variable."
@@ -31,6 +33,7 @@ BOUNDS = {"quick": "R<=3, P in {1,2,4,8}, V<=3, 2 seeds", "thorough": "R<=3, P i
 METHODS = ["norm", "uniform", "truncnorm", "sobol", "halton", "lhs"]
 QMC = {"sobol", "halton", "lhs"}
 BOUNDED = {"uniform", "truncnorm", "sobol", "halton", "lhs"}
+EXPLICIT = {"uniform": {"loc": 0.0, "scale": 4.0}, "truncnorm": {"a": -3.0, "b": 3.0}, "norm": {"loc": 5.0, "scale": 2.0}}
 
 
 def engine(method: str, dim: int, rng: Any) -> Any:
@@ -88,6 +91,20 @@ def judge(case: dict[str, Any]) -> Judgement:
         j.fail("handled-variable-mask", observed=arg_mask, expected=hm)
     with warnings.catch_warnings():
         warnings.simplefilter("ignore")
+        if case.get("sibling"):
+            # An earlier sampler of the same method with explicit distribution parameters, in the same process: the
+            # defaults of the sampler under test ("within [-1, 1] by default") must not depend on it.
+            sib_dict = copy.deepcopy(config_dict)
+            sib_dict["samplers"] = [dict(sc) for sc in sconfs]
+            sib_dict["samplers"][0]["options"] = dict(EXPLICIT[method])
+            sib_config = validate(sib_dict)
+            sib = manager.get_plugin("sampler", method=method).create(sib_config, 0, arg_mask, default_rng(seed))
+            sib_samples = np.asarray(sib.generate_samples())
+            j.transitions += 1
+            if dim and method == "uniform" and (sib_samples[..., hm].min() < 0.0 or sib_samples[..., hm].max() > 4.0):
+                j.fail("explicit-options-not-honoured", method=method)
+            if sib_config.samplers[0].options != EXPLICIT[method]:
+                j.fail("sampler-options-in-config-changed", observed=sib_config.samplers[0].options)
         rng = default_rng(config.gradient.seed)
         sampler = manager.get_plugin("sampler", method=method).create(config, 0, arg_mask, rng)
         single = assign is None
@@ -172,7 +189,7 @@ def judge(case: dict[str, Any]) -> Judgement:
                     if not np.allclose(delta[..., hm], expect, rtol=0, atol=1e-12):
                         j.fail("e2e-perturbation-not-sampler-output", assign=assign)
     j.trivial = dim == 0
-    j.outcome = f"{method}/dim={dim}/shared={shared}/single={assign is None}"
+    j.outcome = f"{method}/dim={dim}/shared={shared}/single={assign is None}/sibling={bool(case.get('sibling'))}"
     return j
 
 
@@ -198,11 +215,13 @@ def run_shard(shard: dict[str, Any]) -> core.ShardResult:
         for assign in assigns:
             for shared in (False, True):
                 for gseed in seeds:
-                    case = {"method": shard["method"], "R": shard["R"], "P": shard["P"], "V": V, "mask": mask,
-                            "assign": assign, "shared": shared, "gseed": gseed, "e2e": gseed == seeds[0]}
-                    j = judge(case)
-                    rec.add((shard["method"], shard["R"], shard["P"], V, None if mask is None else tuple(mask),
-                             None if assign is None else tuple(assign), shared, gseed), case, j)
+                    for sibling in ((False, True) if shard["method"] in EXPLICIT and gseed == seeds[0] else (False,)):
+                        case = {"method": shard["method"], "R": shard["R"], "P": shard["P"], "V": V, "mask": mask,
+                                "assign": assign, "shared": shared, "gseed": gseed, "e2e": gseed == seeds[0],
+                                "sibling": sibling}
+                        j = judge(case)
+                        rec.add((shard["method"], shard["R"], shard["P"], V, None if mask is None else tuple(mask),
+                                 None if assign is None else tuple(assign), shared, gseed, sibling), case, j)
     return rec.finish()
 
 
